@@ -381,3 +381,10 @@ def router_recv_blocking(h):
     left = {p: [hex(x) for x in v] for p, v in arrived.items() if v}
     check(not left, "c09.router-recv.message-lost-after-a-dropped-recv" if dropped else "c11.router-recv.message-never-delivered",
             f"never returned: {left} ({dropped} call(s) dropped)")
+
+
+def replay_router_recv_blocking(model, params, role):
+    if "c14.router-recv.timer-does-not-expire" in role:
+        return "router_recv_churn 300 100 20\n", (lambda out: "WAITED-LONGER-THAN-RCVTIMEO" in out), \
+            "ROUTER (inproc) with RCVTIMEO=300 ms waiting in recv() while a DEALER connects every 100 ms; expecting recv() to return much later than RCVTIMEO"
+    return None
